@@ -418,3 +418,266 @@ func ruleKeywordCase(c *Ctx, rule string) {
 		ob2.Nontrivial = true
 	}
 }
+
+// ruleLexerTokenMemory implements C15.R4: the lexer may decide on the characters of the current token only. If it keeps a memory of
+// tokens it already produced (a field of token type that it reads again), that memory must skip whitespace and comments, or the
+// presence of trivia before a token changes how the token is read.
+func ruleLexerTokenMemory(c *Ctx, rule string) {
+	r := c.R
+	lexT := c.NamedType("ast", "Lexer")
+	tokT := c.NamedType("ast", "TokenType")
+	tokenT := c.NamedType("ast", "Token")
+	if lexT == nil || tokT == nil {
+		r.Ob(rule, "anchor ast.Lexer / TokenType", "").Und("not found")
+		return
+	}
+	st := lexT.Underlying().(*types.Struct)
+	isTokenish := func(t types.Type) bool {
+		for {
+			switch u := t.(type) {
+			case *types.Pointer:
+				t = u.Elem()
+				continue
+			case *types.Slice:
+				t = u.Elem()
+				continue
+			}
+			break
+		}
+		return types.Identical(t, tokT) || (tokenT != nil && types.Identical(t, tokenT))
+	}
+	wsVals := map[string]string{}
+	for _, n := range []string{"WS", "COMMENT"} {
+		if k := c.constByName("ast", n); k != nil {
+			wsVals[k.Val().ExactString()] = n
+		}
+	}
+	nfields := 0
+	for i := 0; i < st.NumFields(); i++ {
+		f := st.Field(i)
+		if !isTokenish(f.Type()) {
+			continue
+		}
+		nfields++
+		// reads and writes of the field in package ast
+		var reads, writes []ssa.Instruction
+		for _, fn := range c.SrcFuncs("ast") {
+			instrsOf(fn, func(in ssa.Instruction) {
+				fa, ok := in.(*ssa.FieldAddr)
+				if !ok || fa.Field != i || !types.Identical(deref(fa.X.Type()), lexT) {
+					return
+				}
+				if _, isLocal := fa.X.(*ssa.Alloc); isLocal {
+					return // the composite literal that creates the lexer
+				}
+				for _, ref := range *fa.Referrers() {
+					switch x := ref.(type) {
+					case *ssa.Store:
+						if x.Addr == ssa.Value(fa) {
+							writes = append(writes, x)
+						}
+					case *ssa.UnOp:
+						reads = append(reads, x)
+					}
+				}
+			})
+		}
+		ob := r.Ob(rule, "ast.Lexer."+f.Name()+": a remembered token is never whitespace or a comment", "")
+		if len(reads) == 0 {
+			ob.OKnt("the field is never read back")
+			continue
+		}
+		var bad []string
+		for _, w := range writes {
+			fn := w.Parent()
+			cds := NewPostDom(fn).ControlDeps()
+			seen := map[string]bool{}
+			for _, l := range condsOf(cds, w.Block()) {
+				if b, ok := l.Cond.(*ssa.BinOp); ok {
+					for _, side := range []ssa.Value{b.X, b.Y} {
+						if k, ok := side.(*ssa.Const); ok && k.Value != nil && types.Identical(k.Type(), tokT) {
+							if n, is := wsVals[k.Value.ExactString()]; is {
+								seen[n] = true
+							}
+						}
+					}
+				}
+			}
+			if !seen["WS"] || !seen["COMMENT"] {
+				bad = append(bad, c.pos(w.Pos()))
+			}
+		}
+		ob.Pos = c.pos(reads[0].Pos())
+		if len(bad) == 0 {
+			ob.OKnt(fmt.Sprintf("%d store(s), each control-dependent on tests that exclude WS and COMMENT", len(writes)))
+		} else {
+			ob.Bad("the lexer reads this field back to decide how to read the next token, and the store at " + strings.Join(bad, ", ") + " also records whitespace and comment tokens: the same token is read differently depending on whether trivia precedes it")
+		}
+	}
+	if nfields == 0 {
+		r.Ob(rule, "ast.Lexer keeps no memory of the tokens it produced", c.pos(lexT.Obj().Pos())).OKnt("no field of token type: each token is read from the characters alone")
+	}
+}
+
+// ruleEscapeStateOneChar implements C16.R6: an escape state of the string lexer lasts for exactly one decision. Every path through
+// the arm guarded by `state == <escape state>` hands the loop the string state the escape was entered from; a path that keeps the
+// escape state treats the next character of the literal as another escape.
+func ruleEscapeStateOneChar(c *Ctx, rule string) {
+	r := c.R
+	fn := c.Method("ast", "Lexer", "getNextToken")
+	// the state type and its constants are declared inside getNextToken
+	names := map[string]string{}
+	var stateT types.Type
+	if p := c.Pkgs["ast"]; p != nil {
+		for _, obj := range p.TypesInfo.Defs {
+			if cst, ok := obj.(*types.Const); ok {
+				if nt, ok := cst.Type().(*types.Named); ok && nt.Obj().Name() == "TokenState" {
+					stateT = nt
+					names[cst.Val().ExactString()] = cst.Name()
+				}
+			}
+		}
+	}
+	if fn == nil || stateT == nil {
+		r.Ob(rule, "anchor ast.(*Lexer).getNextToken / TokenState", "").Und("not found")
+		return
+	}
+	constName := func(k *ssa.Const) string {
+		if n, ok := names[k.Value.ExactString()]; ok {
+			return n
+		}
+		return k.Value.ExactString()
+	}
+	isState := func(v ssa.Value) (*ssa.Const, bool) {
+		k, ok := v.(*ssa.Const)
+		if ok && k.Value != nil && types.Identical(k.Type(), stateT) {
+			return k, true
+		}
+		return nil, false
+	}
+	// escape states: state constants whose name says ESCAPE
+	type esc struct {
+		k      *ssa.Const
+		name   string
+		from   map[string]bool // string states it is entered from
+		region map[*ssa.BasicBlock]bool
+		pos    token.Pos
+	}
+	escs := map[string]*esc{}
+	// exits: If (state == K)
+	instrsOf(fn, func(in ssa.Instruction) {
+		iff, ok := in.(*ssa.If)
+		if !ok {
+			return
+		}
+		b, ok := iff.Cond.(*ssa.BinOp)
+		if !ok || b.Op != token.EQL {
+			return
+		}
+		k, ok := isState(b.Y)
+		if !ok {
+			return
+		}
+		name := constName(k)
+		if !strings.Contains(name, "ESCAPE") {
+			return
+		}
+		t := iff.Block().Succs[0]
+		if len(t.Preds) != 1 {
+			return
+		}
+		e := escs[name]
+		if e == nil {
+			e = &esc{k: k, name: name, from: map[string]bool{}, region: map[*ssa.BasicBlock]bool{}, pos: b.Pos()}
+			escs[name] = e
+		}
+		for _, blk := range fn.Blocks {
+			if t == blk || t.Dominates(blk) {
+				e.region[blk] = true
+			}
+		}
+	})
+	// entries: phi edges carrying the escape constant; the string state is the state tested positively on the way there
+	instrsOf(fn, func(in ssa.Instruction) {
+		phi, ok := in.(*ssa.Phi)
+		if !ok || !types.Identical(phi.Type(), stateT) {
+			return
+		}
+		for i, ev := range phi.Edges {
+			k, ok := isState(ev)
+			if !ok {
+				continue
+			}
+			e := escs[constName(k)]
+			if e == nil {
+				continue
+			}
+			for _, l := range domConds(fn, phi.Block().Preds[i]) {
+				if b, ok := l.Cond.(*ssa.BinOp); ok && b.Op == token.EQL && l.Pol {
+					if k2, ok := isState(b.Y); ok {
+						e.from[constName(k2)] = true
+					}
+				}
+			}
+		}
+	})
+	n := 0
+	for _, name := range sortedKeys(escs) {
+		e := escs[name]
+		n++
+		ob := r.Ob(rule, "getNextToken: "+name+" lasts for one decision", c.pos(e.pos))
+		if len(e.from) != 1 {
+			ob.Und(fmt.Sprintf("the state is entered from %v; expected exactly one string state", sortedKeys(e.from)))
+			continue
+		}
+		want := sortedKeys(e.from)[0]
+		var bad []string
+		edges := 0
+		instrsOf(fn, func(in ssa.Instruction) {
+			phi, ok := in.(*ssa.Phi)
+			if !ok || !types.Identical(phi.Type(), stateT) || e.region[phi.Block()] {
+				return
+			}
+			for i, ev := range phi.Edges {
+				if !e.region[phi.Block().Preds[i]] {
+					continue
+				}
+				edges++
+				if k, ok := isState(ev); ok && constName(k) == want {
+					continue
+				}
+				bad = append(bad, exprStr(ev))
+			}
+		})
+		switch {
+		case edges == 0:
+			ob.Und("no path from the arm back to the loop was found")
+		case len(bad) == 0:
+			ob.OKnt(fmt.Sprintf("all %d path(s) out of the arm continue in %s", edges, want))
+		default:
+			ob.Bad(fmt.Sprintf("a path out of the arm continues in state %s instead of %s: the character after an incomplete escape is decoded as another escape (and a closing quote can be swallowed)", strings.Join(uniq(bad), ", "), want))
+		}
+	}
+	r.Floor(rule, "escape states of the string lexer", n, 2)
+}
+
+// domConds: the branch decisions that hold whenever block b executes, read off the dominator tree: for every If whose block
+// dominates b, the successor (entered only through that edge) that dominates b.
+func domConds(fn *ssa.Function, b *ssa.BasicBlock) []CondLit {
+	var out []CondLit
+	for _, d := range fn.Blocks {
+		if d == b || !d.Dominates(b) {
+			continue
+		}
+		iff, ok := d.Instrs[len(d.Instrs)-1].(*ssa.If)
+		if !ok {
+			continue
+		}
+		for i, s := range d.Succs {
+			if len(s.Preds) == 1 && (s == b || s.Dominates(b)) {
+				out = append(out, CondLit{iff.Cond, i == 0, iff})
+			}
+		}
+	}
+	return out
+}
